@@ -718,6 +718,48 @@ func (l *c18Life) Done() {
 func init() {
 	Register("C18", "model_checking", func(c *Ctx) {
 		r := c.R
+		var byName int64
+		// several uploads under one name: a download by name picks the revision asked for (0, 1, ... from the oldest,
+		// -1, -2, ... from the newest; the default is the newest)
+		{
+			for _, tracked := range []bool{false, true} {
+				w := world.New()
+				b := c18Bucket(w, tracked)
+				contents := [][]byte{[]byte("first"), []byte("second-revision"), []byte("3")}
+				for k, content := range contents {
+					id := fmt.Sprintf("rev%d", k)
+					if err := b.UploadFromStreamWithID(w.Ctx, id, "same-name", bytes.NewReader(content), options.GridFSUpload().SetChunkSizeBytes(4)); err != nil {
+						r.Broken("upload of revision %d: %v", k, err)
+					}
+					if tracked {
+						_ = b.ClaimUpload(w.Ctx, id)
+					}
+				}
+				for rev, want := range map[int32][]byte{0: contents[0], 1: contents[1], 2: contents[2], -1: contents[2], -2: contents[1], -3: contents[0]} {
+					var buf bytes.Buffer
+					n, err := b.DownloadToStreamByName(w.Ctx, "same-name", &buf, options.GridFSName().SetRevision(rev))
+					byName++
+					if err != nil || int(n) != len(want) || !bytes.Equal(buf.Bytes(), want) {
+						r.Violation("download-by-name:revision", fmt.Sprintf("tracked=%v: DownloadToStreamByName(revision %d) returned %q (%d bytes, err %v), that revision holds %q", tracked, rev, buf.Bytes(), n, err, want), map[string]interface{}{"part": "by-name", "revision": rev, "tracked": tracked})
+					}
+					if st, err := b.OpenDownloadStreamByName(w.Ctx, "same-name", options.GridFSName().SetRevision(rev)); err == nil {
+						got, _ := io.ReadAll(st)
+						if !bytes.Equal(got, want) {
+							r.Violation("download-by-name:revision", fmt.Sprintf("tracked=%v: OpenDownloadStreamByName(revision %d) reads %q, that revision holds %q", tracked, rev, got, want), map[string]interface{}{"part": "by-name", "revision": rev, "tracked": tracked})
+						}
+					}
+				}
+				var buf bytes.Buffer
+				if _, err := b.DownloadToStreamByName(w.Ctx, "same-name", &buf); err != nil || !bytes.Equal(buf.Bytes(), contents[2]) {
+					r.Violation("download-by-name:default", fmt.Sprintf("tracked=%v: DownloadToStreamByName without revision returned %q (err %v), the newest revision holds %q", tracked, buf.Bytes(), err, contents[2]), map[string]interface{}{"part": "by-name", "tracked": tracked})
+				}
+				if _, err := b.DownloadToStreamByName(w.Ctx, "same-name", &buf, options.GridFSName().SetRevision(3)); err == nil {
+					r.Violation("download-by-name:missing-revision", "revision 3 of 3 uploads was found", map[string]interface{}{"part": "by-name"})
+				}
+				w.Close()
+			}
+			r.Set("downloads_by_name_and_revision", byName)
+		}
 		t0 := time.Now()
 		uploads, partitions := c18Uploads(c)
 		r.Set("seconds_upload_sweep", int64(time.Since(t0).Seconds()))
